@@ -60,6 +60,19 @@ def gen(rng, tier):
                         if cs[k][1] == 1.0:
                             cs[k] = G.grid_simplex(rng, ny, den, "part")
                         tag = "informative_at_zero_base_rate"
+                    elif r == 2:
+                        # tiny but positive total weight: the only informative conditional has a tiny base rate
+                        # and / or tiny belief masses
+                        k = rng.below(nx)
+                        t = num.rnd(ty, rng.choice([1e-9, 1e-12, 1e-20, 1e-30] if ty == "f64" else [1e-4, 1e-6, 1e-10, 1e-20]))
+                        rest = G.grid_dist(rng, nx - 1, den, positive=True) if nx > 1 else []
+                        ax = list(rest)
+                        ax.insert(k, t)
+                        small = num.rnd(ty, rng.choice([1.0, 1e-3, 1e-8] if ty == "f64" else [1.0, 1e-3]))
+                        bb = [0.0] * ny
+                        bb[rng.below(ny)] = small
+                        cs = [(bb, num.rnd(ty, 1.0 - small)) if j == k else ([0.0] * ny, 1.0) for j in range(nx)]
+                        tag = "tiny_total_weight"
                     gid += 1
                     cn = sum((flat_sx(c) for c in cs), [])
                     fam = rng.choice(FAMS)
@@ -74,7 +87,8 @@ def gen(rng, tier):
                                     wn + cn + fb, tag=tag, meta=m))
                     if all(a > 0 for a in ax):
                         wy = G.grid_simplex(rng, ny, den)
-                        out.append(Case("abduce", ty, fam, "spx", [nx, ny], flat_sx(wy) + cn + ax, tag=tag, meta=m))
+                        out.append(Case("abduce", ty, fam, rng.choice(["spx", "ref", "own"]), [nx, ny],
+                                        flat_sx(wy) + cn + ax, tag=tag, meta=m))
     return out
 
 
